@@ -790,6 +790,10 @@ func gen(r *rand.Rand, i int) Case {
 		case 11:
 			c.Proto = "ddmet"
 			genDDMet(r, &c)
+			if r.Intn(4) == 0 {
+				c.Damage = true
+				flag(&c, "damaged-document")
+			}
 		default:
 			c.Proto = "otlp"
 			genOtlp(r, &c)
